@@ -10,10 +10,12 @@ def run(tier):
     binary = vlib.build_harness()
     common.mc_replay(rep, binary, PROP, "MC_C05", keyf=common.default_key)
     common.ext_type_sweep(rep, binary, PROP)
+    # typed contents that are a bare number: every value of the number (all 256 / 65536) through the extension parsers
+    common.site_sweep(rep, binary, PROP, keep=lambda s: s["fn"].startswith("parse_tls_extension") or s["fn"].endswith("_extension"))
     return rep.finish("model_checking",
                       "cases = RFC encodings of ~90 typed extension values (26 types, boundary contents), the 16 GREASE points, "
                       "~37 unknown types, through the 3 dispatchers with suffixes; 16 tag parsers on own and foreign types; "
-                      "empty-only extensions with data; outer and inner length lies; lists of 0..3 extensions and broken lists; all 65536 types x 3 dispatchers x 2 payloads and x 16 tag parsers swept and judged by TLC; "
+                      "empty-only extensions with data; outer and inner length lies; lists of 0..3 extensions and broken lists; all 65536 types x 3 dispatchers x 2 payloads and x 16 tag parsers swept and judged by TLC; 16 numeric content fields (versions, groups, schemes, modes, name / status types) swept over their whole domain; "
                       "distinct = (function, pin, outcome, value size)")
 
 
